@@ -40,6 +40,7 @@ type C02Case struct {
 	Plan  ReadPlan  `json:"plan"`
 	Ext   string    `json:"ext,omitempty"` // file mode: "", ".gz", ".xz"
 	Members int     `json:"members,omitempty"` // gzstream and file(.gz) modes: the text is compressed as this many gzip members (a compressor that works block by block, or files put together with cat)
+	Gz    bool      `json:"gz,omitempty"`    // multi mode: the streams are gzip streams opened through GetReaderFromReader
 	Twin  bool      `json:"twin,omitempty"`  // multi mode: a second stream (the same alignments in reverse order) is parsed at the same time
 	Stale int       `json:"stale,omitempty"` // file modes: the output path already holds this many bytes left by an earlier run
 	// multi mode: the schedule
@@ -56,6 +57,13 @@ func (c02) ID() string       { return "C02" }
 func (c02) New() interface{} { return &C02Case{} }
 func (c02) Rule() string {
 	return "each run: an alignment of 1-10 rows (95-140 in one run of a hundred) whose length is drawn from the widths that straddle every writer line and block (10, 50, 60, 80, their neighbours and multiples) or at random, nucleotide or protein IUPAC residues in both cases with '-', '*', '?', names of 1-14 printable non-blank characters that the formats of the run can represent (<= 10 for strict Phylip; all-digit names included), and one of seven modes: single (writer -> simulated stream -> parser), chain (2-4 formats in a row), file (utils.OpenWriteFile -> real temp file, plain/.gz/.xz, fresh or already holding 1-120000 bytes of an earlier output -> utils.ReadAlign / GetReader), gzstream (gzip bytes through the simulated stream and GetReaderFromReader), auto (format detection), multifile (2-5 Phylip alignments of sizes on both sides of 4096 bytes written one after the other to one plain/.gz/.xz file and read back with ParseMultiAlignmentsAuto), multi (1-25 Phylip alignments in one stream through ParseMultiAlignmentsAuto with the parser goroutine, every read of the simulated file, the consumer and the close under the seeded scheduler; in 3 runs of 10 a second stream - the same alignments in reverse order - is parsed by another goroutine in the same schedule). Distinct = distinct (mode, formats and options, alignment shape, fragment plan or schedule hash); non-trivial = the alignment has at least 2 rows and 2 columns, or the stream holds at least 2 alignments."
+}
+
+func (c *C02Case) maybeGz(data []byte) []byte {
+	if !c.Gz {
+		return data
+	}
+	return gzipMembers(string(data), 1)
 }
 
 // gzipMembers compresses the text as k gzip members, cut at line ends where there are any (RFC 1952: the content
@@ -224,6 +232,7 @@ func (c02) Gen(rs uint64, tier string, race bool) interface{} {
 	}
 	if c.Mode == "multi" {
 		c.Twin = r.Chance(0.3)
+		c.Gz = r.Chance(0.3)
 	}
 	if c.Mode == "gzstream" || c.Mode == "file" {
 		c.Members = r.Pick(1, 1, 2, 3)
@@ -647,10 +656,15 @@ func (c *C02Case) runMulti(ctx *Ctx, o *Outcome, fail func(string, string, ...in
 			verifrt.Go("twin@harness", func() {
 				plan2 := c.Plan
 				plan2.Seed++
-				f2 := newSimFile(data2, plan2)
+				f2 := newSimFile(c.maybeGz(data2), plan2)
 				f2.park = func() { verifrt.Yield("read@simfile2") }
 				f2.parkClose = func() { verifrt.Yield("close@simfile2") }
-				ac2, _, err := utils.ParseMultiAlignmentsAuto(f2, bufio.NewReader(f2), strict, align.BOTH)
+				rd2, err := utils.GetReaderFromReader(c.Gz, f2)
+				if err != nil {
+					err2 = err
+					return
+				}
+				ac2, _, err := utils.ParseMultiAlignmentsAuto(f2, rd2, strict, align.BOTH)
 				if err != nil {
 					err2 = err
 					return
@@ -666,10 +680,15 @@ func (c *C02Case) runMulti(ctx *Ctx, o *Outcome, fail func(string, string, ...in
 				}
 			})
 		}
-		f = newSimFile(data, c.Plan)
+		f = newSimFile(c.maybeGz(data), c.Plan)
 		f.park = func() { verifrt.Yield("read@simfile") }
 		f.parkClose = func() { verifrt.Yield("close@simfile") }
-		ac, fm, err := utils.ParseMultiAlignmentsAuto(f, bufio.NewReader(f), strict, align.BOTH)
+		rd, err := utils.GetReaderFromReader(c.Gz, f)
+		if err != nil {
+			callErr = err
+			return
+		}
+		ac, fm, err := utils.ParseMultiAlignmentsAuto(f, rd, strict, align.BOTH)
 		format = fm
 		if err != nil {
 			callErr = err
